@@ -112,6 +112,7 @@ def run(tier, seed, rep):
         name, res, consts = mc.result()
         rep.add_model(name, res, consts)
     nconv = sum(len(e["ids"]) for e in convs)
+    evs = [e for e in evs if e.get("op") != "panic"]      # PANIC_FILTER: statistics only (panic events were judged by TLC above)
     rep.cov["programs"] = len(files) - len(failed)
     rep.cov["evaluations"] = nconv + len(others)
     rep.cov["distinct_nontrivial"] = len({(e["style"], tuple(i)) for e in convs for i in e["ids"]})
